@@ -270,7 +270,12 @@ impl Story {
         if let Some(divert) = divert
             && divert.is_external
         {
-            let name = divert.get_target_path_string().unwrap();
+            // An external divert with a variable target has no function name:
+            // it is run as a variable divert and needs no binding.
+            let name = match divert.get_target_path_string() {
+                Some(name) => name,
+                None => return Ok(()),
+            };
 
             if !self.externals.contains_key(&name) {
                 if self.allow_external_function_fallbacks {
